@@ -59,6 +59,9 @@ class Gen:
             if not self.advall(sl, g): break
     def upd(self, sl, w):
         if self.e('On %d UPD %d' % (sl, w)): self.T[sl].inval(WST[w])
+    def upds(self, sl, w, ss):
+        """per-subsystem write accessor updQ(subsys) ... updUErrWeights(subsys); updZWeights(subsys) invalidates Report"""
+        if self.e('On %d UPDS %d %d' % (sl, w, ss)) and ss < self.nsub and w not in (3, 4): self.T[sl].inval(9 if w == 6 else WST[w])
     def allocdv(self, sl, ss, inval, v, auto_dep=None):
         b = self.T[sl].subs[ss]; st = b['stage']
         legal = 1 <= inval <= 9 and st <= (0 if inval <= 2 else 1) and inval > st + 1
@@ -151,7 +154,11 @@ class Gen:
             k = self.rand_ce(sl, False)
             if k: self.e('On %d GET %d %d' % (sl, k[0], k[1]))
         elif x < 0.63:
-            w = r.choice([0, 0, 1, 1, 2, 2, 3, 4, 4, 5, 6, 7, 8]); self.upd(sl, w); self.feat.add('upd')
+            if r.random() < 0.45:
+                w = r.choice([0, 0, 1, 1, 2, 2, 2, 5, 6, 7, 8] + ([3, 4] if r.random() < 0.1 else []))
+                self.upds(sl, w, r.randrange(self.nsub + (1 if r.random() < 0.03 else 0))); self.feat.add('updsub')
+            else:
+                w = r.choice([0, 0, 1, 1, 2, 2, 3, 4, 4, 5, 6, 7, 8]); self.upd(sl, w); self.feat.add('upd')
         elif x < 0.71:
             k = self.rand_dv(sl)
             if k and self.e('On %d SDV %d %d %d' % (sl, k[0], k[1], r.randint(1, 99))): t.inval(t.subs[k[0]]['dvs'][k[1]]['inval']); self.feat.add('setdv')
@@ -213,7 +220,7 @@ class Gen:
         k = self.allocce(sl, ss, d, r.choice([d, 10, 10]))
         self.realize(sl, d - 1)
         if k: self.e('On %d MK %d %d' % (sl, k[0], k[1]))
-        self.upd(sl, r.choice([0, 1, 2, 4])); self.realize(sl, d)
+        (self.upds(sl, r.choice([0, 1, 2]), ss) if r.random() < 0.5 else self.upd(sl, r.choice([0, 1, 2, 4]))); self.realize(sl, d)
     def t_copyreal(self, sl):
         r = self.r; ss = r.randrange(self.nsub); d = r.randint(4, 8); self.feat.add('copyreal')
         self.e('On %d AQ %d 1' % (sl, ss)); k = self.allocce(sl, ss, d, r.choice([d + 1, 10, 10]))
